@@ -25,10 +25,10 @@ PROPS = {
         suites=["seq", "crash"], tags={"counts", "stats", "sizes"}, corr={"state", "ret_stats"}, crash_corr={"recovery"},
         rule="known_blobs / stats / sizes after every op, after reopen and after every crash recovery vs recount from the spec map"),
     "C13": dict(
-        suites=["seq"], tags={"abort_noop"}, corr={"trace", "state", "dir"},
+        suites=["seq", "fault"], tags={"abort_noop", "staging_leftover"}, corr={"trace", "state", "dir"},
         rule="aborted transactions at random positions with all write patterns; observation before == after, trace only staging"),
     "C14": dict(
-        suites=["fault"], tags={"contained", "nofail", "reopen"},
+        suites=["fault"], tags={"contained", "nofail", "reopen"}, fault_corr={"ret"},
         rule="one EIO injected at every effective filesystem call of every history, then reads, two restarts and reads"),
     "C18": dict(
         suites=["seq", "codec"], tags={"hash_identity", "roundtrip", "decoder_total"}, corr={"state", "dir"}, codec_kinds={"path", "unpath"},
